@@ -89,6 +89,28 @@ def snapshot(sim):
     }
 
 
+class QueueLog:
+    """Observations handed to the scheduler's allocation loop and not yet
+    dropped from the hot buffer by mark_observation_finished, read off the
+    probe's call log (independent of the scheduler's own list object)."""
+
+    def __init__(self):
+        self.n, self.q = 0, []
+
+    def update(self, probe):
+        calls = probe.calls
+        while self.n < len(calls):
+            c = calls[self.n]
+            self.n += 1
+            if c["kind"] == "alloc_handed":
+                if c["obs"] not in self.q:
+                    self.q.append(c["obs"])
+            elif c["kind"] == "hot_remove" and c["ret"]:
+                if c["obs"] in self.q:
+                    self.q.remove(c["obs"])
+        return list(self.q)
+
+
 def freeze(x):
     if isinstance(x, dict):
         return tuple(sorted((k, freeze(v)) for k, v in x.items()))
@@ -164,9 +186,12 @@ def execute(case, monitors=(), prefix=(), horizon=None, light=True,
     run = build(case, chooser, horizon, light, tie)
     sim, env, probe = run.sim, run.env, run.probe
 
+    qlog = QueueLog()
+
     def on_boundary(t):
         if keep_snaps:
             run.bsnaps[t] = snapshot(sim)
+            run.bsnaps[t]["queue_log"] = qlog.update(probe)
         for m in monitors:
             f = getattr(m, "on_boundary", None)
             if f:
